@@ -170,7 +170,7 @@ class G:
                 self.add({'op': 'map', 'up': [p], 'fn': ['ident']}, t)
             elif choice == 'falsy':
                 m = self.pick([2, 2, 3])
-                self.add({'op': 'map', 'up': [p], 'fn': ['falsy', m, r.randrange(m), self.pick([0, 1])]}, ('any', hashable(t)))
+                self.add({'op': 'map', 'up': [p], 'fn': ['falsy', m, r.randrange(m), self.pick([0, 1, 2])]}, ('any', hashable(t)))
             elif choice == 'totuple':
                 self.add({'op': 'map', 'up': [p], 'fn': ['totuple']}, ('var', 0, t[1]))
             else:
@@ -382,7 +382,7 @@ class G:
             if self.chance(0.2):
                 # jobs whose result is sometimes falsy (0 / ()): "nothing to wait for" must not be read off the value
                 m = self.pick([2, 2, 3])
-                fn, rt = ['falsy', m, r.randrange(m), self.pick([0, 1])], ('any', hashable(t))
+                fn, rt = ['falsy', m, r.randrange(m), self.pick([0, 1, 2])], ('any', hashable(t))
             else:
                 fn, rt = ['tag', r.randrange(1, 9)], ('fix', (INT, t))
             self.add({'op': 'map_async', 'up': [p], 'fn': fn,
@@ -453,12 +453,12 @@ class G:
         if pf.get('falsy_dedup') and mode != 'loopless' and self.chance(0.12):
             # falsy values (0 / ()) meeting a de-duplicating window: "empty" must not be taken for "absent"
             m = self.pick([1, 2])
-            f = self.add({'op': 'map', 'up': [0], 'fn': ['falsy', self.pick([2, 3]), 0, self.pick([0, 1])]}, ('any', True))
+            f = self.add({'op': 'map', 'up': [0], 'fn': ['falsy', self.pick([2, 3]), 0, self.pick([0, 1, 2])]}, ('any', True))
             self.add({'op': 'timed_window_unique', 'up': [f], 'interval': self.pick(INTERVALS), 'keep': self.pick(['first', 'last', 'last']),
                       'key': ['wmod', m]}, ('var', 0, ('any', True)))
         if pf.get('falsy_dedup') and self.chance(0.12):
             m = self.pick([1, 2])
-            f = self.add({'op': 'map', 'up': [0], 'fn': ['falsy', self.pick([2, 3]), 0, self.pick([0, 1])]}, ('any', True))
+            f = self.add({'op': 'map', 'up': [0], 'fn': ['falsy', self.pick([2, 3]), 0, self.pick([0, 1, 2])]}, ('any', True))
             self.add({'op': 'partition_unique', 'up': [f], 'n': m, 'keep': self.pick(['first', 'last', 'last']), 'key': ['wmod', m]},
                      ('fix', tuple(('any', True) for _ in range(m))))
         if pf.get('flatten_serial') and mode != 'loopless' and self.chance(0.12):
